@@ -141,55 +141,69 @@ static inline unsigned bcd_val(unsigned b) { return (b >> 4) * 10 + (b & 0x0f); 
 static inline int clock_time(const DTT* t, size_t len, _Bool bcd, _Bool rev) {
   SymbolString in = slave_with(len); struct tokout o; out_init(&o);
   result_t r = DTT_readSymbols(t, 0, len, &in, 0, &o);
-  /* components in display order hh, mm[, ss]: REV types store the hour last */
-  unsigned c[3]; _Bool null_any = 0, bad_bcd = 0;
+  /* components in display order hh, mm[, ss]: REV types store the hour last; a component equal to the replacement byte is shown as "-" */
+  unsigned c[3]; _Bool isnull[3]; _Bool any_null = 0, bad_digit = 0, bad_range = 0, stop = 0; unsigned hour = 0;
   for (size_t k = 0; k < 3; k++) {
-    if (k < len) {
+    isnull[k] = 0; c[k] = 0;
+    if (k < len && !stop) {
       unsigned b = in.m_data.d[1 + (rev ? len - 1 - k : k)];
-      if (b == t->m_replacement) null_any = 1;
-      else if (bcd && !bcd_ok(b)) bad_bcd = 1;
-      c[k] = bcd ? bcd_val(b) : b;
-    } else c[k] = 0;
+      if (b == t->m_replacement) { isnull[k] = 1; any_null = 1; }
+      else if (bcd && !bcd_ok(b)) { bad_digit = 1; stop = 1; }
+      else {
+        c[k] = bcd ? bcd_val(b) : b;
+        if (k == 0) { if (c[0] > 24) { bad_range = 1; stop = 1; } hour = c[0]; }
+        else if (c[k] > 59 || (hour == 24 && c[k] > 0)) { bad_range = 1; stop = 1; }
+      }
+    }
   }
-  if (null_any) { return OC_NULL; }                /* partial null output, not specified here */
-  else if (bad_bcd) { __CPROVER_assert(r == RESULT_ERR_OUT_OF_RANGE, "[C05] a byte outside the BCD digit set is rejected"); return OC_BAD_DIGIT; }
-  else if (c[0] > 24 || c[1] > 59 || c[2] > 59 || (c[0] == 24 && (c[1] > 0 || c[2] > 0))) { __CPROVER_assert(r == RESULT_ERR_OUT_OF_RANGE, "[C05] a time outside 00:00:00 - 24:00:00 is rejected"); return OC_BAD_RANGE; }
-  else {
-    __CPROVER_assert(r == RESULT_OK && o.n == 2 * len - 1, "[C05] a time is shown as hh:mm[:ss]");
-    for (size_t k = 0; k < 3; k++) { if (k < len && o.n == 2 * len - 1) {
-      __CPROVER_assert(IS_NUM(&o, 2 * k, 2) && o.val[2 * k] == (long)c[k], "[C05] hour, minute, second are the stored components in display order");
-      if (k > 0) __CPROVER_assert(IS_STR(&o, 2 * k - 1, ':'), "[C05] components are separated by a colon");
-    } }
-    return OC_GOOD;
-  }
+  if (bad_digit) { __CPROVER_assert(r == RESULT_ERR_OUT_OF_RANGE, "[C05] a byte outside the BCD digit set is rejected"); return OC_BAD_DIGIT; }
+  if (bad_range) { __CPROVER_assert(r == RESULT_ERR_OUT_OF_RANGE, "[C05] a time outside 00:00:00 - 24:00:00 is rejected"); return OC_BAD_RANGE; }
+  __CPROVER_assert(r == RESULT_OK && o.n == 2 * len - 1, "[C05] a time is shown as hh:mm[:ss] (a null component as -), nothing else");
+  for (size_t k = 0; k < 3; k++) { if (k < len && o.n == 2 * len - 1) {
+    if (isnull[k]) __CPROVER_assert(IS_STR(&o, 2 * k, '-'), "[C05] a component equal to the replacement byte is shown as the null value");
+    else __CPROVER_assert(IS_NUM(&o, 2 * k, 2) && o.val[2 * k] == (long)c[k], "[C05] hour, minute, second are the stored components in display order");
+    if (k > 0) __CPROVER_assert(IS_STR(&o, 2 * k - 1, ':'), "[C05] components are separated by a colon");
+  } }
+  return any_null ? OC_NULL : OC_GOOD;
 }
-void h_bti(void) { int oc = clock_time(&dtt_BTI, 3, 1, 1); SEEN(oc, OC_BAD_DIGIT, "bad bcd") SEEN(oc, OC_BAD_RANGE, "bad time") SEEN(oc, OC_GOOD, "good time") }
-void h_hti(void) { int oc = clock_time(&dtt_HTI, 3, 0, 0); SEEN(oc, OC_BAD_RANGE, "bad time") SEEN(oc, OC_GOOD, "good time") }
-void h_vti(void) { int oc = clock_time(&dtt_VTI, 3, 0, 1); SEEN(oc, OC_BAD_RANGE, "bad time") SEEN(oc, OC_GOOD, "good time") }
-void h_btm(void) { int oc = clock_time(&dtt_BTM, 2, 1, 1); SEEN(oc, OC_BAD_DIGIT, "bad bcd") SEEN(oc, OC_BAD_RANGE, "bad time") SEEN(oc, OC_GOOD, "good time") }
-void h_htm(void) { int oc = clock_time(&dtt_HTM, 2, 0, 0); SEEN(oc, OC_BAD_RANGE, "bad time") SEEN(oc, OC_GOOD, "good time") }
-void h_vtm(void) { int oc = clock_time(&dtt_VTM, 2, 0, 1); SEEN(oc, OC_BAD_RANGE, "bad time") SEEN(oc, OC_GOOD, "good time") }
+void h_bti(void) { int oc = clock_time(&dtt_BTI, 3, 1, 1); SEEN(oc, OC_BAD_DIGIT, "bad bcd") SEEN(oc, OC_BAD_RANGE, "bad time") SEEN(oc, OC_GOOD, "good time") SEEN(oc, OC_NULL, "null component") }
+void h_hti(void) { int oc = clock_time(&dtt_HTI, 3, 0, 0); SEEN(oc, OC_BAD_RANGE, "bad time") SEEN(oc, OC_GOOD, "good time") SEEN(oc, OC_NULL, "null component") }
+void h_vti(void) { int oc = clock_time(&dtt_VTI, 3, 0, 1); SEEN(oc, OC_BAD_RANGE, "bad time") SEEN(oc, OC_GOOD, "good time") SEEN(oc, OC_NULL, "null component") }
+void h_btm(void) { int oc = clock_time(&dtt_BTM, 2, 1, 1); SEEN(oc, OC_BAD_DIGIT, "bad bcd") SEEN(oc, OC_BAD_RANGE, "bad time") SEEN(oc, OC_GOOD, "good time") SEEN(oc, OC_NULL, "null component") }
+void h_htm(void) { int oc = clock_time(&dtt_HTM, 2, 0, 0); SEEN(oc, OC_BAD_RANGE, "bad time") SEEN(oc, OC_GOOD, "good time") SEEN(oc, OC_NULL, "null component") }
+void h_vtm(void) { int oc = clock_time(&dtt_VTM, 2, 0, 1); SEEN(oc, OC_BAD_RANGE, "bad time") SEEN(oc, OC_GOOD, "good time") SEEN(oc, OC_NULL, "null component") }
 
 /* dates dd.mm.yy (BDA:3 / HDA:3) and dd.mm.WW.yy (BDA / HDA / BDZ, weekday skipped) */
 static inline int plain_date(const DTT* t, size_t len, _Bool bcd) {
   SymbolString in = slave_with(len); struct tokout o; out_init(&o);
   result_t r = DTT_readSymbols(t, 0, len, &in, 0, &o);
-  unsigned bd = in.m_data.d[1], bm = in.m_data.d[2], by = in.m_data.d[len];
-  _Bool null_any = bd == 0xff || bm == 0xff || by == 0xff || bd == 0 || bm == 0 || (by == 0 && 0);
-  _Bool bad_bcd = bcd && (!bcd_ok(bd) || !bcd_ok(bm) || !bcd_ok(by));
-  unsigned d = bcd ? bcd_val(bd) : bd, m = bcd ? bcd_val(bm) : bm, y = bcd ? bcd_val(by) : by;
-  if (null_any) { return OC_NULL; }                /* (partial) null output, not specified here */
-  else if (bad_bcd) { __CPROVER_assert(r == RESULT_ERR_OUT_OF_RANGE, "[C05] a byte outside the BCD digit set is rejected"); return OC_BAD_DIGIT; }
-  else if (d < 1 || d > 31 || m < 1 || m > 12) { __CPROVER_assert(r == RESULT_ERR_OUT_OF_RANGE, "[C05] a day or month outside the calendar is rejected"); return OC_BAD_RANGE; }
-  else if (y > 99) { __CPROVER_assert(r < 0, "[C05] a year beyond 2099 is outside the value range of the type and is rejected"); return OC_BAD_YEAR; }
-  else {
-    __CPROVER_assert(r == RESULT_OK && o.n == 5 && IS_NUM(&o, 0, 2) && IS_STR(&o, 1, '.') && IS_NUM(&o, 2, 2) && IS_STR(&o, 3, '.') && IS_NUM(&o, 4, 0), "[C05] a date is shown as dd.mm.yyyy");
-    if (o.n == 5) { __CPROVER_assert(o.val[0] == (long)d && o.val[2] == (long)m && o.val[4] == 2000 + (long)y, "[C05] day, month and year are the stored components"); }
-    return OC_GOOD;
+  /* day, month, [weekday: not shown], year; a component equal to the replacement byte or 0 is null (the year only together with the month) */
+  unsigned raw[3] = { in.m_data.d[1], in.m_data.d[2], in.m_data.d[len] }; unsigned c[3]; _Bool isnull[3]; _Bool any_null = 0, bad_digit = 0, bad_range = 0, bad_year = 0, stop = 0;
+  for (size_t k = 0; k < 3; k++) {
+    isnull[k] = 0; c[k] = raw[k];
+    if (!stop) {
+      if (raw[k] != 0xff) { if (bcd && !bcd_ok(raw[k])) { bad_digit = 1; stop = 1; } else if (bcd) c[k] = bcd_val(raw[k]); }
+      if (!stop) {
+        _Bool nullish = c[k] == 0xff || c[k] == 0;
+        if (k < 2) { if (nullish) { isnull[k] = 1; any_null = 1; } else if (c[k] < 1 || (k == 0 && c[k] > 31) || (k == 1 && c[k] > 12)) { bad_range = 1; stop = 1; } }
+        else { if (nullish && isnull[1]) { isnull[2] = 1; any_null = 1; } else if (c[2] > 99) { bad_year = 1; stop = 1; } }
+      }
+    }
   }
+  if (bad_digit) { __CPROVER_assert(r == RESULT_ERR_OUT_OF_RANGE, "[C05] a byte outside the BCD digit set is rejected"); return OC_BAD_DIGIT; }
+  if (bad_range) { __CPROVER_assert(r == RESULT_ERR_OUT_OF_RANGE, "[C05] a day or month outside the calendar is rejected"); return OC_BAD_RANGE; }
+  if (bad_year) { __CPROVER_assert(r < 0, "[C05] a year beyond 2099 is outside the value range of the type and is rejected"); return OC_BAD_YEAR; }
+  __CPROVER_assert(r == RESULT_OK && o.n == 5 && IS_STR(&o, 1, '.') && IS_STR(&o, 3, '.'), "[C05] a date is shown as dd.mm.yyyy (a null component as -), nothing else");
+  if (o.n == 5) {
+    for (size_t k = 0; k < 3; k++) {
+      if (isnull[k]) __CPROVER_assert(IS_STR(&o, 2 * k, '-'), "[C05] a null component is shown as the null value");
+      else __CPROVER_assert(IS_NUM(&o, 2 * k, k < 2 ? 2 : 0) && o.val[2 * k] == (long)(k < 2 ? c[k] : 2000 + c[2]), "[C05] day, month and year are the stored components");
+    }
+  }
+  return any_null ? OC_NULL : OC_GOOD;
 }
-void h_bda(void) { int oc = plain_date(&dtt_BDA, 4, 1); SEEN(oc, OC_BAD_DIGIT, "bad bcd") SEEN(oc, OC_BAD_RANGE, "bad date") SEEN(oc, OC_GOOD, "good date") }
-void h_bda3(void) { int oc = plain_date(&dtt_BDA_3, 3, 1); SEEN(oc, OC_BAD_DIGIT, "bad bcd") SEEN(oc, OC_BAD_RANGE, "bad date") SEEN(oc, OC_GOOD, "good date") }
+void h_bda(void) { int oc = plain_date(&dtt_BDA, 4, 1); SEEN(oc, OC_BAD_DIGIT, "bad bcd") SEEN(oc, OC_BAD_RANGE, "bad date") SEEN(oc, OC_GOOD, "good date") SEEN(oc, OC_NULL, "null component") }
+void h_bda3(void) { int oc = plain_date(&dtt_BDA_3, 3, 1); SEEN(oc, OC_BAD_DIGIT, "bad bcd") SEEN(oc, OC_BAD_RANGE, "bad date") SEEN(oc, OC_GOOD, "good date") SEEN(oc, OC_NULL, "null component") }
 void h_hda(void) { int oc = plain_date(&dtt_HDA, 4, 0); SEEN(oc, OC_BAD_YEAR, "bad year") SEEN(oc, OC_BAD_RANGE, "bad date") SEEN(oc, OC_GOOD, "good date") }
 void h_hda3(void) { int oc = plain_date(&dtt_HDA_3, 3, 0); SEEN(oc, OC_BAD_YEAR, "bad year") SEEN(oc, OC_BAD_RANGE, "bad date") SEEN(oc, OC_GOOD, "good date") }
 
